@@ -170,3 +170,12 @@ impl GraphColoredVertices {
     pub fn is_singleton(&self) -> bool { unimplemented!() }
     pub fn copy(&self, _bdd: Bdd) -> Self { unimplemented!() }
 }
+// parameters of the network (explicit uninterpreted functions): empty contracts
+#[derive(Clone, Copy)]
+pub struct ParameterId { _p: usize }
+pub struct ParameterIdIterator { _p: usize }
+impl ParameterIdIterator { pub fn next(&mut self) -> Option<ParameterId> { unimplemented!() } }
+impl SymbolicContext {
+    pub fn network_parameters(&self) -> ParameterIdIterator { unimplemented!() }
+    pub fn network_implicit_parameters(&self) -> Vec<VariableId> { unimplemented!() }
+}
